@@ -616,3 +616,42 @@ def e_full(j: int) -> bool:
     i0, i1, i2, kind, argcode, precode, conci, cfgi, chi = digits(j * FULL_STRIDE, FULL_RADICES)
     with NoTracing():
         return _e('e_full', [POOL[i0], POOL[i1], [0, 6, 23][i2]], kind, argcode, precode, [1, 2, 5][conci], cfgi, chi)
+
+
+def a2_two_chunks(s0: int, s1: int, c1: int) -> bool:
+    """Two files, the stream cut into two consecutive chunks at an arbitrary point c1: the references recorded for each file,
+    taken in counter order, tile the file exactly (contiguous in the file, total length = file size, each inside its chunk).
+    This is the two-chunk instance of the interval-partition lemma, machine-checked for unbounded sizes.
+    pre: 0 <= s0 <= s1 and 1 <= c1
+    pre: c1 < s0 + (-s0 % 4) + s1
+    post: _
+    """
+    state, total = _layout([s0, s1])
+    snapshot_files = {}
+    cd = _MK_CHUNK_DONE(state, snapshot_files, rt.Nop(), rt.Nop())
+    cd(R._SnapshotChunk(contents=b'', index=0, location='', stream_start=0, stream_end=c1, counter=1))
+    cd(R._SnapshotChunk(contents=b'', index=1, location='', stream_start=c1, stream_end=total, counter=2))
+    starts = {1: 0, 2: c1}
+    ends = {1: c1, 2: total}
+    ok = True
+    for (_, f) in state.files:
+        fd = snapshot_files.get(f.path)
+        if fd is None:
+            ok = False
+            continue
+        refs = sorted(fd['chunks'], key=lambda r: r['counter'])
+        pos = f.stream_start           # position in the stream that the next reference has to continue from
+        for r in refs:
+            a, b = r['range']
+            cs = starts[r['counter']]
+            if a > b or a < 0 or cs + b > ends[r['counter']]:
+                ok = False
+            if b > a:
+                if cs + a != pos:
+                    ok = False
+                pos = cs + b
+        if pos != f.stream_end or fd['digest'] != f.digest:
+            ok = False
+    with NoTracing():
+        tick('a2', None)
+    return ok
